@@ -14,4 +14,5 @@ import (
 	_ "fxmc/props/c10"
 	_ "fxmc/props/c11"
 	_ "fxmc/props/c13"
+	_ "fxmc/props/c18"
 )
